@@ -207,7 +207,7 @@ def ob_aggregate(w, P):
             return contextlib.nullcontext()
         return part[i] if kind == 'partial' else per[i]
     fc, tw = mk_fanout(w, n, timeouts, results)
-    meth = getattr(L.fanout.FanoutCache, name)
+    meth = getattr(L.fanout.FanoutCache, 'reset' if name == 'reset_reload' else name)
     if P.get('busy'):
         # a read-only aggregate meets a shard whose lock is held: it may raise Timeout (loud) or wait and cover the shard, but it
         # must not return normally a result that leaves the shard out
@@ -221,6 +221,8 @@ def ob_aggregate(w, P):
         ret = meth(fc, 7)
     elif name == 'reset':
         ret = meth(fc, 'cull_limit', 5)
+    elif name == 'reset_reload':
+        ret = meth(fc, 'cull_limit')  # no value: reload the setting -- on every shard
     elif name == 'transact':
         with meth(fc):
             pass
@@ -354,18 +356,80 @@ def ob_route_history(w, P):
     return cl
 
 
+def ob_fanout_busy_lookup(w, P):
+    """a real 2-shard FanoutCache on model databases, configured so that a lookup needs the write lock (statistics on, or a
+    policy that records accesses); the shard's lock is busy for the first k BEGIN attempts.  The entry points that are
+    documented to wait (indexing, read) return the present key's value -- never KeyError, never Timeout; get() without retry
+    reports the default and changes nothing; with retry=True it waits."""
+    from symdc.state import Nullable
+    L = w.L
+    pol, stats = P.get('policy', 'least-recently-stored'), P.get('statistics', 1)
+    w.clock_fn = lambda: 0.0
+    try:
+        fc = L.fanout.FanoutCache(w.dir, shards=2, cull_limit=0, eviction_policy=pol, statistics=stats)
+        for sh in fc._shards:
+            sh._con
+    finally:
+        w.clock_fn = None
+    val = w.int('value', -2 ** 40, 2 ** 40)
+    key = int(w.int('key', 0, 3))
+    si = (key % 0xFFFFFFFF) % 2
+    w.install_rows(fc._shards[si], [dict(rowid=1, key=key, raw=1, store_time=0, access_time=0, access_count=0, expire_time=Nullable(True, 0), tag=None, size=0, mode=1,
+                                          filename=None, value=val, _alive=True, _tb=0)])
+    kk = w.int('busy_k', 1, 2)
+    cnt = [0]
+
+    def hook(con):
+        cnt[0] += 1
+        flag('lock_busy')
+        return bool(kk >= cnt[0])
+    for sh in fc._shards:
+        w.set_busy_hook(sh, hook)
+    how = P['how']
+    w.start_events()
+    try:
+        if how == 'getitem':
+            r = ('ok', fc[key])
+        elif how == 'read':
+            r = ('ok', fc.read(key))
+        elif how == 'get_retry':
+            r = ('ok', fc.get(key, default=-7, retry=True))
+        elif how == 'get':
+            r = ('ok', fc.get(key, default=-7))
+        elif how == 'contains':
+            r = ('ok', key in fc)
+    except KeyError:
+        r = ('keyerror', None)
+    except L.core.Timeout:
+        r = ('timeout', None)
+    w.stop_events()
+    cl = []
+    if how == 'get':
+        cl.append(('C14,C13', 'get without retry returns the value or the default -- no exception, nothing else', r[0] == 'ok' and is_num_like(r[1]) and Or(EqR(zv(r[1]), -7), EqR(zv(r[1]), zv(val)))))
+    elif how == 'contains':
+        cl.append(('C14,C13', 'membership needs no lock', r == ('ok', True)))
+    else:
+        cl.append(('C14,C13', 'a lookup that is documented to wait for the lock returns the value of a present key (%s)' % r[0], r[0] == 'ok' and is_num_like(r[1]) and EqR(zv(r[1]), zv(val))))
+        cl.append(('C14', 'the lock really was busy', cnt[0] > 0))
+    flag('nontrivial')
+    return cl
+
 def jobs(tier):
     out = []
     F = ['fanout.FanoutCache.' + m for m in KEYED + AGG] + ['fanout.FanoutCache._remove', 'core.Disk.hash']
     for m in KEYED:
         out.append(dict(id='fanout.keyed.%s' % m, func='ob_keyed', params=dict(method=m), tags=['C13', 'C14'], functions=F, weight=3, twin=False))
-    for m in AGG:
+    for m in AGG + ['reset_reload']:
         out.append(dict(id='fanout.agg.%s' % m, func='ob_aggregate', params=dict(method=m), tags=['C13', 'C14', 'C04', 'C17'], functions=F, weight=2, twin=False))
     for m in ('expire', 'evict', 'cull', 'clear'):
         out.append(dict(id='fanout.agg.%s.timeouts' % m, func='ob_aggregate', params=dict(method=m, with_timeouts=True), tags=['C13', 'C14'], functions=F, weight=4, twin=False))
     for m in ('check', '__len__', 'volume', 'stats', '__iter__'):
         out.append(dict(id='fanout.agg.%s.busy' % m, func='ob_aggregate', params=dict(method=m, with_timeouts=True, busy=True), tags=['C13', 'C17', 'C14'], functions=F, weight=4, twin=False,
                         must_reach=['shard_timeout']))
+    for how in ('getitem', 'read', 'get_retry', 'get', 'contains'):
+        for pol, st in (('least-recently-used', 0), ('least-recently-stored', 1)):
+            out.append(dict(id='fanout.busy.%s.%s.%d' % (how, pol.split('-')[-1], st), func='ob_fanout_busy_lookup', params=dict(how=how, policy=pol, statistics=st), tags=['C13', 'C14'],
+                            functions=['fanout.FanoutCache.__getitem__', 'fanout.FanoutCache.read', 'fanout.FanoutCache.get', 'core.Cache.get'], weight=3, twin=False))
     out.append(dict(id='fanout.init', func='ob_init', params={}, tags=['C13', 'C09', 'C11', 'C12', 'C18'], functions=['fanout.FanoutCache.__init__', 'fanout.FanoutCache.deque', 'fanout.FanoutCache.index'],
                     weight=3, twin=False))
     out.append(dict(id='fanout.route_history', func='ob_route_history', params={}, tags=['C13'], functions=['fanout.FanoutCache.__init__', 'core.Disk.hash'], weight=3, twin=False))
